@@ -320,6 +320,105 @@ theorem params_roundtrip (p : Profile) (st : St) (s e sb : Nat) (h : Conforming 
   · exact (expectedSizes_cover e (regVal st.dev.mem s REQUIRED_LEADER_SIZE 4)
       (regVal st.dev.mem s REQUIRED_PAYLOAD_SIZE 8) (regVal st.dev.mem s REQUIRED_TRAILER_SIZE 4)).2.2
 
+/-! ## 3b. Histories: several acquisitions on handles that stay open -/
+
+/-- image invariant of a conforming device whose SBRM is at `sb` and SIRM at `s` -/
+structure GoodImg (m : Mem) (sb s : Nat) : Prop where
+  sirm : SirmOk m s
+  boot : Bootstrap m sb s
+
+/-- a reconfiguration of the camera between two acquisitions (other ROI, chunk mode, alignment …):
+the device stays conforming and reports in-scope requirements -/
+def Reconf (sb s : Nat) (r : Mem → Mem) : Prop :=
+  ∀ m, GoodImg m sb s → GoodImg (r m) sb s ∧ ∃ e, InScope (r m) s e
+
+/-- One acquisition on handles that stay open: the device is reconfigured (`r`), `enable_streaming`,
+the receive loop is started (`start_streaming_loop` reads its parameters with
+`StreamParams::from_control`), `disable_streaming`.  Result: the image the acquisition started
+from and the parameters the receive loop got. -/
+def session (p : Profile) (r : Mem → Mem) (st : St) : (Mem × R StreamParams) × St :=
+  let st1 : St := { st with dev := { st.dev with mem := r st.dev.mem } }
+  let st2 := (enableStreaming p st1).2
+  ((st1.dev.mem, (fromControl st2).1), (disableStreaming (fromControl st2).2).2)
+
+def sessions (p : Profile) : List (Mem → Mem) → St → List (Mem × R StreamParams)
+  | [], _ => []
+  | r :: rs, st => (session p r st).1 :: sessions p rs (session p r st).2
+
+/-- handle states between acquisitions: no pending faults, SIRM address cached or both caches cold -/
+def Between (st : St) (sb s : Nat) : Prop :=
+  st.dev.faults = [] ∧ (st.sirm = some s ∨ (st.sirm = none ∧ st.sbrm = none)) ∧ GoodImg st.dev.mem sb s
+
+private theorem session_step (p : Profile) (r : Mem → Mem) (st : St) (sb s : Nat)
+    (hst : Between st sb s) (hr : Reconf sb s r) :
+    (∃ e t, InScope (session p r st).1.1 s e ∧
+      (session p r st).1.2 = .ok ⟨(programmedSizes (session p r st).1.1 s e).maxLeader,
+        (programmedSizes (session p r st).1.1 s e).maxTrailer,
+        (programmedSizes (session p r st).1.1 s e).transferSize,
+        (programmedSizes (session p r st).1.1 s e).transferCount,
+        (programmedSizes (session p r st).1.1 s e).final1,
+        (programmedSizes (session p r st).1.1 s e).final2, t⟩) ∧
+    Between (session p r st).2 sb s := by
+  obtain ⟨⟨m, log, f⟩, c1, c2⟩ := st
+  obtain ⟨hf, hres, hgood⟩ := hst
+  simp only at hf hres hgood
+  subst hf
+  obtain ⟨hg1, e, hin⟩ := hr m hgood
+  have hconf : Conforming ⟨⟨r m, log, []⟩, c1, c2⟩ s e := by
+    refine ⟨rfl, ?_, hg1.sirm, hin⟩
+    rcases hres with h | ⟨h1, h2⟩
+    · exact .warm h
+    · exact .cold h1 h2 sb hg1.boot
+  obtain ⟨pre, c, _, hrun⟩ := enable_run p _ s e hconf
+  have hs' : SirmOk (enableImage (r m) s (programmedSizes (r m) s e)) s :=
+    applyWrites_ok (afterDisable_ok hg1.sirm) _
+  have hb' := hg1.boot.enableImage (programmedSizes (r m) s e)
+  obtain ⟨log', hfc⟩ := fromControl_ok (enableImage (r m) s (programmedSizes (r m) s e)) sb s
+    (log ++ pre ++ enableScript (r m) s (programmedSizes (r m) s e)) c (some s) hb' hs'
+  have hregs := enableImage_regs (r m) s (programmedSizes (r m) s e)
+    (expectedSizes_fit32 e _ _ _ hin.arith)
+  rw [hregs.1, hregs.2.1, hregs.2.2.1, hregs.2.2.2.1, hregs.2.2.2.2.1, hregs.2.2.2.2.2.1] at hfc
+  have hsp := hs'.inSpace
+  simp only [SIRM_LEN] at hsp
+  have hdis : disableStreaming (mkSt (enableImage (r m) s (programmedSizes (r m) s e)) log' c (some s)) =
+      (.ok (), mkSt ((enableImage (r m) s (programmedSizes (r m) s e)).write (s + SI_CONTROL) (toLE 4 0))
+        (log' ++ [.w (s + SI_CONTROL) (toLE 4 0) true true]) c (some s)) := by
+    unfold disableStreaming
+    rw [M.bind_ok _ _ _ _ _ (getSirm_warm _ _ _)]
+    exact writeReg32_ok s SI_CONTROL 0 _ log' c (some s) (by simp only [SI_CONTROL]; omega)
+      (hs'.sub SI_CONTROL 4 (by decide))
+  have hst2 : (enableStreaming p ⟨⟨r m, log, []⟩, c1, c2⟩).2 =
+      mkSt (enableImage (r m) s (programmedSizes (r m) s e))
+        (log ++ pre ++ enableScript (r m) s (programmedSizes (r m) s e)) c (some s) := by
+    rw [hrun]
+  refine ⟨⟨e, regVal (enableImage (r m) s (programmedSizes (r m) s e)) 0 ABRM_MAXIMUM_DEVICE_RESPONSE_TIME 4, hin, ?_⟩, ?_⟩
+  · show (fromControl (enableStreaming p ⟨⟨r m, log, []⟩, c1, c2⟩).2).1 = _
+    rw [hst2, hfc]
+    rfl
+  · show Between (disableStreaming (fromControl (enableStreaming p ⟨⟨r m, log, []⟩, c1, c2⟩).2).2).2 sb s
+    rw [hst2, hfc, hdis]
+    exact ⟨rfl, Or.inl rfl, hs'.write _ _, hb'.write_sirm SI_CONTROL 0 (by decide)⟩
+
+/-- **params_roundtrip for every acquisition of a history**: on handles that stay open, for any
+sequence of reconfigurations of a conforming device, the parameters the receive loop gets in
+EVERY acquisition are exactly the sizes `enable_streaming` programmed in that acquisition
+(`programmedSizes` of the image that acquisition started from) — never those of an earlier one. -/
+theorem params_roundtrip_every_session (p : Profile) (rs : List (Mem → Mem)) (st : St) (sb s : Nat)
+    (hst : Between st sb s) (hrs : ∀ r ∈ rs, Reconf sb s r) :
+    ∀ x ∈ sessions p rs st, ∃ e t, InScope x.1 s e ∧
+      x.2 = .ok ⟨(programmedSizes x.1 s e).maxLeader, (programmedSizes x.1 s e).maxTrailer,
+        (programmedSizes x.1 s e).transferSize, (programmedSizes x.1 s e).transferCount,
+        (programmedSizes x.1 s e).final1, (programmedSizes x.1 s e).final2, t⟩ := by
+  induction rs generalizing st with
+  | nil => intro x hx; simp [sessions] at hx
+  | cons r rs ih =>
+    obtain ⟨h1, h2⟩ := session_step p r st sb s hst (hrs r (by simp))
+    intro x hx
+    simp only [sessions, List.mem_cons] at hx
+    rcases hx with rfl | hx
+    · exact h1
+    · exact ih _ h2 (fun r' hr' => hrs r' (by simp [hr'])) x hx
+
 /-! ## 4. Arbitrary devices, handle states and fault schedules -/
 
 /-- `enable_streaming` = SIRM address resolution, then `enableAt`. -/
@@ -506,6 +605,16 @@ example : Conforming exSt 0x1000 4 :=
 example : Conforming ⟨⟨exMem, [], []⟩, some (0x2000, 1), none⟩ 0x1000 4 :=
   ⟨rfl, .mixed rfl 0x2000 1 rfl (by decide) (by decide) (by decide) (by decide),
     ⟨by decide, by decide⟩, ⟨by decide, by decide, by decide, by decide, by decide⟩⟩
+
+/-- hypotheses of `params_roundtrip_every_session` are satisfiable -/
+example : Between exSt 0x2000 0x1000 :=
+  ⟨rfl, Or.inr ⟨rfl, rfl⟩, ⟨⟨by decide, by decide⟩, ⟨by decide, by decide, by decide, by decide,
+    by decide, by decide, by decide, by decide⟩⟩⟩
+example : Reconf 0x2000 0x1000 (fun _ => exMem) := by
+  intro _ _
+  show GoodImg exMem 0x2000 0x1000 ∧ ∃ e, InScope exMem 0x1000 e
+  exact ⟨⟨⟨by decide, by decide⟩, ⟨by decide, by decide, by decide, by decide, by decide, by decide,
+    by decide, by decide⟩⟩, 4, ⟨by decide, by decide, by decide, by decide, by decide⟩⟩
 
 example : enabledIn exSt.dev.mem 0x1000 := by decide
 
